@@ -1,6 +1,10 @@
 #!/bin/bash
-# One-time offline build of the monitoring harness (and, once needed, the server binaries).
+# One-time offline build of the monitoring harness and the server binaries the black-box
+# checks drive. Every check re-runs the (incremental) builds it needs from /repo's tree.
 set -e
+export CARGO_NET_OFFLINE=true
 cd /verif/harness
-export CARGO_NET_OFFLINE=true CARGO_TARGET_DIR=/verif/target
-cargo build --release --offline -p vh
+CARGO_TARGET_DIR=/verif/target cargo build --release --offline -p vh -p vtext
+cd /repo
+CARGO_TARGET_DIR=/verif/target/glas-plain cargo build --release --offline -p glas
+CARGO_TARGET_DIR=/verif/target/glas-verif cargo build --release --offline -p glas --features verif
